@@ -243,7 +243,7 @@ func driveC14(c *driverCtx) error {
 	for si, m := range tl {
 		s := node(m["s"].(map[string]any))
 		d := schemaDoc(s)
-		for v := 0; v < c.pick(8, 60); v++ {
+		for v := 0; v < c.pick(8, 400); v++ {
 			var sb strings.Builder
 			render(d, c.rng, v > 0, v%3, &sb, 0)
 			text := sb.String()
